@@ -11,7 +11,7 @@
 (*   - any other character follows unknown_char_policy.                             *)
 (* Rules (records):                                                                  *)
 (*   [t |-> "dict",  ent |-> Seq(<<codepoint, repl>>), prot]                        *)
-(*   [t |-> "regex", ent |-> Seq(<<literal, repl>>), prot]    first alternative     *)
+(*   [t |-> "regex", ent |-> Seq(<<literal, repl [, left]>>), prot]  first alternative *)
 (*                       whose literal is a prefix of the rest matches, consuming   *)
 (*                       the literal                                                 *)
 (*   [t |-> "call",  ent |-> Seq(<<literal, repl, consume>>), prot]   a callable    *)
@@ -44,12 +44,23 @@ REPLACE_TXT == <<123,92,98,102,115,101,114,105,101,115,32,63,125>>
 
 StartsAt(s, p, lit) == p + Len(lit) - 1 <= Len(s) /\ \A k \in 1..Len(lit) : s[p + k - 1] = lit[k]     \* p 1-based
 
+(* a regular expression is matched at position p of the WHOLE string (re.match(s, pos)): an assertion about   *)
+(* what precedes p sees the real preceding character.  Optional third component of a regex entry:             *)
+(*   <<"bos", {}>>   ^ / \A : only at the start of the string                                                 *)
+(*   <<"in", S>>     (?<=[S]) : the preceding character exists and is in S                                     *)
+(*   <<"notin", S>>  (?<![S]) or \b before a word character (S = word characters): none, or not in S          *)
+LeftOK(r, e, s, p) ==
+    IF r.t # "regex" \/ Len(e) < 3 THEN TRUE
+    ELSE CASE e[3][1] = "bos" -> p = 1
+           [] e[3][1] = "in" -> p > 1 /\ s[p - 1] \in e[3][2]
+           [] e[3][1] = "notin" -> p = 1 \/ s[p - 1] \notin e[3][2]
+
 (* result of trying rule r at 1-based position p: <<>> (no match) or <<repl, consumed>> *)
 TryRule(r, s, p) ==
     IF r.t = "dict"
     THEN LET hits == { k \in DOMAIN r.ent : r.ent[k][1] = s[p] } IN
          IF hits = {} THEN <<>> ELSE << r.ent[CHOOSE k \in hits : TRUE][2], 1 >>
-    ELSE LET hits == { k \in DOMAIN r.ent : StartsAt(s, p, r.ent[k][1]) } IN
+    ELSE LET hits == { k \in DOMAIN r.ent : StartsAt(s, p, r.ent[k][1]) /\ LeftOK(r, r.ent[k], s, p) } IN
          IF hits = {} THEN <<>>
          ELSE LET k == CHOOSE j \in hits : \A m \in hits : j <= m IN
               << r.ent[k][2], IF r.t = "regex" THEN Len(r.ent[k][1]) ELSE r.ent[k][3] >>
@@ -96,4 +107,5 @@ Unmatched(cfg, s) == { p \in 1..Len(s) : ~(cfg.non_ascii_only /\ s[p] < 127) /\ 
 SingleCharRules(cfg) == \A i \in DOMAIN cfg.rules :
                            cfg.rules[i].t = "dict" \/ \A k \in DOMAIN cfg.rules[i].ent :
                                 Len(cfg.rules[i].ent[k][1]) = 1 /\ (cfg.rules[i].t = "call" => cfg.rules[i].ent[k][3] = 1)
+                                /\ (cfg.rules[i].t = "regex" => Len(cfg.rules[i].ent[k]) = 2)      \* no assertion about the context
 =============================================================================
